@@ -772,3 +772,153 @@ def rule_counts(ctx):
     delegates(ARGSET + "::<T>::len", r"^utils::label::LabelSet::len$", "LabelSet::len()")
     delegates(AAF + "::<T>::max_argument_id", r"^aa::arguments::ArgumentSet::max_id$|^utils::label::LabelSet::max_id$", "the label set's max_id()")
     delegates(ARGSET + "::<T>::max_id", r"^utils::label::LabelSet::max_id$", "LabelSet::max_id()")
+
+
+def rule_label_store_arithmetic(ctx):
+    """C12: the small functions of the label store, as arithmetic over L = labels.len() and R = n_removed"""
+    prog = ctx.prog
+    from ..prov import prov, show, subterms
+    from .splits import linear
+    from .grounded import inherited_conditions, _cond_trees, _is_call
+
+    r = ctx.rule(
+        "label-store-arithmetic",
+        "with L the length of the label vector and R the removal counter: len() = L - R; is_empty() <=> L = R; max_id() = Some(L - 1) unless the "
+        "vector is empty; has_label_with_id(id) is false when id >= L and else tells whether slot id is occupied; a new label gets the id L it "
+        "had before the push, which is also the position the map records (L' - 1 after the push)",
+    )
+    fields = find_store_fields(prog)
+    if not r.require_anchor(fields["labels"], "label vector field"):
+        return
+    owner, fld, _ = fields["labels"]
+    adt = prog.adt(owner)
+    cnt = [f["name"] for v in adt["variants"] for f in v["fields"] if f["ty"] == "usize"]
+
+    def atoms(fn):
+        def atom(t):
+            if _is_call(t, r"Vec::len$", 1) and t[2][0][0] == "param" and t[2][0][2] == 1 and t[2][0][3] == (fld,):
+                return "L"
+            if t[0] == "param" and t[1] == fn.path and t[2] == 1 and len(t[3]) == 1 and t[3][0] in cnt:
+                return "R"
+            if t[0] == "param" and t[1] == fn.path and t[2] == 2 and not t[3]:
+                return "id"
+            return None
+        return atom
+
+    n = 0
+
+    def judge_value(fn, tree, want, what, anchor):
+        nonlocal n
+        n += 1
+        v = linear(tree, atoms(fn))
+        if v is None:
+            r.ok(anchor, "NOT decided: %s is not a linear form of the vector length and the counter (%s)" % (what, show(tree)[:70]), fn.loc())
+            return
+        r.check(v == want, anchor, "%s:%s" % (what, sorted(v.items(), key=str)), "%s = %s" % (what, _lf(want)), "%s computes %s, not %s" % (fn.path.rsplit("::", 1)[-1], _lf(v), _lf(want)), fn.loc())
+
+    ln = prog.lib(owner + "::<T>::len")
+    if r.require_anchor(ln, owner + "::len"):
+        for e in prov(prog, ln, {"l": 0, "p": []}):
+            judge_value(ln, e, {"L": 1, "R": -1}, "len", ln.id)
+    ie = prog.lib(owner + "::<T>::is_empty")
+    if r.require_anchor(ie, owner + "::is_empty"):
+        for e in prov(prog, ie, {"l": 0, "p": []}):
+            n += 1
+            if e[0] == "op" and e[1] == "Eq" and len(e[2]) == 2:
+                a, b = linear(e[2][0], atoms(ie)), linear(e[2][1], atoms(ie))
+                if a is not None and b is not None:
+                    d = dict(a)
+                    for k, v in b.items():
+                        d[k] = d.get(k, 0) - v
+                    d = {k: v for k, v in d.items() if v != 0}
+                    r.check(d in ({"L": 1, "R": -1}, {"L": -1, "R": 1}), ie.id, "is-empty:%s" % sorted(d.items(), key=str), "is_empty <=> L = R", "is_empty compares %s with 0, not L - R: a set whose labels were all removed is not empty (or the other way round)" % _lf(d), ie.loc())
+                    continue
+            if _is_call(e, r"Vec::is_empty$", 1):
+                r.violation(ie.id, "is-empty:vector", "is_empty tells whether the label *vector* is empty: a set whose labels were all removed is reported as non-empty", ie.loc())
+                continue
+            r.ok(ie.id, "NOT decided: %s" % show(e)[:80], ie.loc())
+    mx = prog.lib(owner + "::<T>::max_id")
+    if r.require_anchor(mx, owner + "::max_id"):
+        for e in prov(prog, mx, {"l": 0, "p": []}):
+            if e[0] == "agg" and e[1] == "Some" and len(e[2]) == 1:
+                judge_value(mx, e[2][0], {"L": 1, 1: -1}, "max_id", mx.id)
+    hs = prog.lib(owner + "::<T>::has_label_with_id")
+    if r.require_anchor(hs, owner + "::has_label_with_id"):
+        n += 1
+        bad = None
+        und = None
+        for st in [x for x in hs.sites() if x.si is not None and x.node["k"] == "assign" and x.node["dst"] == {"l": 0, "p": []}] + [s for s in hs.calls() if s.node["dst"]["l"] == 0 and not s.node["dst"]["p"]]:
+            conds = _cond_trees(prog, inherited_conditions(prog, hs, st.bb))
+            bound = None
+            for c, t in conds:
+                if c[0] == "op" and c[1] in ("Lt", "Le", "Gt", "Ge") and len(c[2]) == 2:
+                    a, b = linear(c[2][0], atoms(hs)), linear(c[2][1], atoms(hs))
+                    if a is None or b is None:
+                        continue
+                    d = dict(a)
+                    for k, v in b.items():
+                        d[k] = d.get(k, 0) - v
+                    d = {k: v for k, v in d.items() if v != 0}
+                    k0 = d.pop(1, 0)
+                    op = c[1] if t else {"Lt": "Ge", "Le": "Gt", "Gt": "Le", "Ge": "Lt"}[c[1]]
+                    if d == {"id": -1, "L": 1}:
+                        op = {"Lt": "Gt", "Le": "Ge", "Gt": "Lt", "Ge": "Le"}[op]
+                        k0 = -k0
+                    elif d != {"id": 1, "L": -1}:
+                        continue
+                    # id - L + k0 op 0
+                    if (op, k0) in (("Lt", 0), ("Le", 1)):
+                        bound = "inside"
+                    elif (op, k0) in (("Ge", 0), ("Gt", 1)):
+                        bound = "outside"
+                    else:
+                        bad = "the id is compared with the vector length with an offset (id - L %+d %s 0)" % (k0, op)
+            if st.si is None:
+                vals = [("call", callee_decl(callee_of(st)))]
+            else:
+                from .equiv import _rv_trees
+
+                vals = list(_rv_trees(prog, hs, st.node["rv"]))
+            for v in vals:
+                if v == ("const", True):
+                    bad = bad or "it answers `true` without looking at the slot"
+                elif v == ("const", False):
+                    if bound != "outside":
+                        und = "a `false` that is not tied to `id >= L`"
+                elif (v[0] == "call" and re.search(r"Option::is_some$", v[1])):
+                    if bound != "inside":
+                        bad = bad or "the slot is read without `id < L` (an id beyond the vector panics)"
+                elif v[0] == "op" and v[1] in ("Lt", "Le", "Gt", "Ge") and linear(v[2][0], atoms(hs)) is not None and linear(v[2][1], atoms(hs)) is not None:
+                    bad = bad or "the answer is the comparison of the id with the vector length: a removed label's id is reported as present"
+                else:
+                    und = "a result of another form"
+        if bad:
+            r.violation(hs.id, "has-label:%s" % bad[:40], "has_label_with_id: %s" % bad, hs.loc())
+        elif und:
+            r.ok(hs.id, "NOT decided: %s" % und, hs.loc())
+        else:
+            r.ok(hs.id, "false beyond the vector, else whether the slot is occupied", hs.loc())
+    nl = prog.lib(owner + "::<T>::new_label")
+    if r.require_anchor(nl, owner + "::new_label"):
+        for y in prog.with_closures(nl):
+            pushes = [s for s in y.calls() if callee_decl(callee_of(s)) == "alloc::vec::Vec::push"]
+            if not pushes:
+                continue
+            ps = pushes[0]
+            order = {(s.bb, s.si): k for k, s in enumerate(sorted(y.calls(), key=lambda s: s.bb))}
+            for e in prov(prog, y, ps.node["args"][1]):
+                news = [t for t in subterms(e) if _is_call(t, r"Label::new$", 2)]
+                for t in news:
+                    judge_value(nl, t[2][0], {"L": 1}, "id of the new label", nl.id + "|id")
+                    lens = [s for s in y.calls() if callee_decl(callee_of(s)) == "alloc::vec::Vec::len" and y.dominates(s, ps)]
+                    r.check(bool(lens), nl.id + "|id", "length-read-after-push", "the length is read before the push", "the id of the new label is computed from the length *after* the push", ps.loc())
+            if y is not nl:
+                for e in prov(prog, y, {"l": 0, "p": []}):
+                    judge_value(nl, e, {"L": 1, 1: -1}, "position recorded in the map", nl.id + "|map")
+                    late = [s for s in y.calls() if callee_decl(callee_of(s)) == "alloc::vec::Vec::len" and y.dominates(ps, s)]
+                    r.check(bool(late), nl.id + "|map", "length-read-before-push", "the length is read after the push", "the position recorded in the map is L - 1 with L read *before* the push: the id of the previous label", ps.loc())
+    r.floor(n, 5, "functions of the label store evaluated")
+
+
+def _lf(d):
+    return " ".join("%+d*%s" % (v, k) if k != 1 else "%+d" % v for k, v in sorted(d.items(), key=str)) or "0"
